@@ -185,9 +185,14 @@ def main(argv):
             return harness_fail(f"worker {w} died (exit {pr.returncode}):\n{tail}")
         with open(rp) as f:
             results.append(json.load(f))
-    for r in results:
-        if r.get("status") != "ok":
-            return harness_fail(f"worker {r.get('worker')}: {r.get('error')}")
+    crashed = [r for r in results if r.get("status") != "ok"]
+    results = [r for r in results if r.get("status") == "ok"]
+    if crashed and not any(r.get("failures") for r in results):
+        return harness_fail(f"worker {crashed[0].get('worker')}: {crashed[0].get('error')}")
+    # some workers hit a harness error while others recorded replayable violations: the violations stand
+    # (each has its own replay file); the harness error is reported next to them
+    for r in crashed:
+        print(f"HARNESS-ERROR property={prop}: worker {r.get('worker')}: {str(r.get('error'))[:600]} [other workers recorded violations, reported below]")
 
     # 2b. coverage-guided stage (thorough tier, when atheris is available): libFuzzer drives the
     # same Hypothesis strategy with coverage feedback from the circuitgraph package
